@@ -23,6 +23,7 @@ inductive Act
   | commit (good : Bool)
   | nested (killAt : Option Nat)
   | orphan (nested : Bool)
+  | group
   deriving Repr
 
 structure RunInfo where
@@ -57,7 +58,7 @@ def showState (s : State) : String :=
       let hp := match d.head with
         | some h => optNat (commitAt g.store h).pol
         | none => "-"
-      s!"{b2s d.head.isSome}/{b2s (d.built)}/{hp}/{b2s (d.head == some g.remote)}"
+      s!"{b2s d.head.isSome}/{b2s (d.built)}/{hp}/{b2s (d.head == some g.remote)}/{b2s d.dirty}"
   let ds := (g.dirs.foldr insertSorted []).map fun (n, d) => s!"{n}:{showDirBody g d}:{b2s d.nested}"
   let r := commitAt g.store g.remote
   s!"cur={optNat g.current} next={nx} failed={b2s g.failed} dirs={joinComma ds} " ++
@@ -90,6 +91,7 @@ partial def runPlan (s : State) (pid : Nat) (plan : List (Nat × Act)) (n : Nat)
       let rec doActs (s : State) (info : RunInfo) : List (Nat × Act) → State × RunInfo × Bool
         | [] => (s, info, false)
         | (_, .kill) :: _ => (step prog s (.kill pid), info, true)
+        | (_, .group) :: _ => (stepG prog s (.killGroup pid), info, true)   -- the whole process group, the compiler half way
         | (_, .orphan nest) :: _ =>
           -- the shell is killed while the child of this command runs (only commands with a child)
           if !i.cmd.external then (step prog s (.kill pid), info, true) else
@@ -116,6 +118,7 @@ partial def runPlan (s : State) (pid : Nat) (plan : List (Nat × Act)) (n : Nat)
 
 def parseAct (a : String) : Option Act :=
   if a == "K" then some .kill
+  else if a == "G" then some .group
   else if a == "O" then some (.orphan false)
   else if a == "On" then some (.orphan true)
   else if a == "cg" then some (.commit true)
